@@ -4,7 +4,8 @@
    Model/Digest.v (digest.go + an independent transcription of RFC 7616 section 3.4).
    The hash function is a universally quantified variable H everywhere. *)
 From ReqV Require Import Lib.Bytes Model.Base64 Model.AuthParam Model.Digest
-     Proofs.Base64Proofs Proofs.AuthParamProofs Proofs.DigestProofs Proofs.DigestVerifyProofs.
+     Proofs.Base64Proofs Proofs.AuthParamProofs Proofs.DigestProofs Proofs.ChallengeTextProofs
+     Proofs.DigestVerifyProofs.
 
 (* ----- Basic / Bearer: the server recovers exactly what was given, for all strings ----- *)
 
@@ -121,6 +122,47 @@ Theorem C20_accept_means_rfc_values : forall H c uri method user pass hint hdr,
     (forall k v, In (k, v) ps -> In k rfc_auth_params).
 Proof. exact accepts_means_rfc_values. Qed.
 Print Assumptions C20_accept_means_rfc_values.
+
+(* ----- the challenge TEXT: quoting / white space / ordering variants ----- *)
+
+(* parseChallenge on ANY rendering of a parameter list - white space before the scheme, after
+   "Digest ", around every comma and at the end; each value as a token or as a quoted-string
+   with quoted-pairs (any bytes); parameters in any order, names repeated or not - returns the
+   meaning of the list (apply_fields: the parameters applied in order, errors included) *)
+Theorem C20_challenge_text_parsed : forall pre mid post xs,
+  forallb is_chal_ws pre = true -> forallb is_chal_ws mid = true -> forallb is_chal_ws post = true ->
+  forallb piece_ok xs = true -> ends_tightb xs = true ->
+  parse_challenge (render_challenge pre mid post xs) = apply_fields empty_chal (map padded_sem xs).
+Proof.
+  intros pre mid post xs H1 H2 H3 H4 H5.
+  exact (parse_challenge_rendered pre mid post xs H1 H2 H3 H4 (ends_tightb_spec xs H5)).
+Qed.
+Print Assumptions C20_challenge_text_parsed.
+
+(* the splitter returns exactly the list elements, commas inside quoted strings included *)
+Theorem C20_split_rendered : forall xs, xs <> [] -> forallb piece_ok xs = true ->
+  split_params (join_with [comma] (map render_piece xs)) = map render_piece xs.
+Proof. exact split_rendered. Qed.
+Print Assumptions C20_split_rendered.
+
+(* text to text: a challenge as the server wrote it, whose meaning c is supported, is answered
+   with header text that the RFC 7616 verifier accepts for c *)
+Theorem C20_challenge_text_to_accepted_header : forall H,
+  (forall f d, clean (H f d) = true) ->
+  forall pre mid post xs c uri method user pass cnonce,
+  forallb is_chal_ws pre = true -> forallb is_chal_ws mid = true -> forallb is_chal_ws post = true ->
+  forallb piece_ok xs = true -> ends_tightb xs = true ->
+  apply_fields empty_chal (map padded_sem xs) = inl c ->
+  supported c = true -> clean cnonce = true ->
+  exists hdr,
+    create_digest_auth H (render_challenge pre mid post xs) uri method user pass cnonce = inl hdr /\
+    rfc7616_accepts H c uri method user pass cnonce hdr = true.
+Proof.
+  intros H HH pre mid post xs c uri method user pass cnonce H1 H2 H3 H4 H5.
+  exact (challenge_text_to_accepted_header H HH pre mid post xs c uri method user pass cnonce
+           H1 H2 H3 H4 (ends_tightb_spec xs H5)).
+Qed.
+Print Assumptions C20_challenge_text_to_accepted_header.
 
 (* ... and such a challenge is answered: exactly one more request, same body, same Content-Type *)
 Theorem C20_supported_is_answered : forall H first rsp user pass cnonce c,
@@ -266,6 +308,26 @@ Qed.
    backslash; H = "keep the letters and digits" (free of quote and backslash, depends on its
    input).  The rendered header is accepted; the same header is refused for another password,
    another method, and when its response is altered. *)
+(* non-vacuity of the challenge-text theorems: RFC 7616 3.9.1-like challenge with odd spacing,
+   a comma and a quoted-pair inside the realm, quoted algorithm *)
+Example C20_challenge_text_nonvacuous :
+  let xs : list padded :=
+    [([], (bs "qop", Quoted (bs "auth, auth-int")), bs " ");
+     (bs "  ", (bs "realm", Quoted (bs "Acme, ""Inc""\")), []);
+     (bs " ", (bs "algorithm", Quoted (bs "SHA-256")), bs " ");
+     ([x09], (bs "nonce", Quoted (bs "n")), []);
+     ([], (bs "userhash", Bare (bs "true")), [])] in
+  forallb piece_ok xs = true /\ ends_tightb xs = true /\
+  render_challenge [x09] (bs " ") [x0a] xs =
+    [x09] ++ bs "Digest  qop=""auth, auth-int"" ,  realm=""Acme, \""Inc\""\\"", algorithm=""SHA-256"" ," ++ [x09] ++
+    bs "nonce=""n"",userhash=true" ++ [x0a] /\
+  exists c, parse_challenge (render_challenge [x09] (bs " ") [x0a] xs) = inl c /\
+            c_realm c = bs "Acme, ""Inc""\" /\ supported c = true.
+Proof.
+  cbv zeta. split; [vm_compute; reflexivity|]. split; [vm_compute; reflexivity|].
+  split; [vm_compute; reflexivity|]. eexists. repeat split; vm_compute; reflexivity.
+Qed.
+
 Example C20_verifier_nonvacuous :
   let H := fun (_ : hashfn) (d : bytes) => filter (fun b => is_alpha b || is_digit b) d in
   let c := mkChal (bs "back\slash") [] (bs "n0nce") (bs "o") [] (bs "SHA-256-sess") (bs "auth-int, auth") (bs "true") in
